@@ -3,6 +3,7 @@ import Ctrmml.Model.MdsConv
 import Ctrmml.Model.MdsPlatform
 import Ctrmml.Spec.Timeline
 import Ctrmml.Spec.SeqWf
+import Ctrmml.Model.Optimizer
 namespace Driver.ConvD
 open Ctrmml Ctrmml.Mds Ctrmml.Player Driver Tables
 
@@ -198,7 +199,44 @@ def judgeC03 (arg impl : String) : String :=
           | [] => "ok"
           | x :: _ => "fail " ++ x
 
+/-- split `<min_score> rest…` -/
+def splitScore (arg : String) : Int × String :=
+  match (arg.splitOn " ").filter (· ≠ "") with
+  | [] => (10, "")
+  | s :: rest => ((parseInt? s).getD 10, " ".intercalate rest)
+
+def renderReq (r : Req) (song : Song) (orig : String) : String :=
+  -- re-render the request with the optimised tracks in place of the original ones
+  let others := (words orig).filter fun t => !(t.startsWith "T" && (t.drop 1).toString.front.isDigit)
+  " ".intercalate (others ++ song.tracks.map fun (id, evs) => s!"T{id}:" ++ (if evs.isEmpty then "" else showEvents evs))
+
+def validAll (s : Song) : Bool :=
+  s.tracks.all fun (_, evs) => match Player.runValidator s evs 3000000 Player.initState with | .ok _ => true | .error _ => false
+
+/-- `mmlc -O` then convert: the optimiser model followed by the converter model -/
+def modelO (arg : String) : String :=
+  let (ms, rest) := splitScore arg
+  match parseReq rest with
+  | none => "bad-request"
+  | some r =>
+    match Opt.optimize validAll ms 100000 r.song (Opt.initialSubId r.song) [] with
+    | .error .missingTrack => "optexc:out_of_range"
+    | .error _ => "MODEL:opt"
+    | .ok o =>
+      if !o.validated then
+        match o.song.tracks.findSome? (fun (_, evs) => match Player.runValidator o.song evs 3000000 Player.initState with | .error e => some e | .ok _ => none) with
+        | some e => "opterr:" ++ playerMsg e
+        | none => "MODEL:opt"
+      else model (renderReq r o.song rest)
+
+/-- C02 on optimised songs: the bytes of the optimised song must play the ORIGINAL song -/
+def judgeO (arg impl : String) : String :=
+  let (_, rest) := splitScore arg
+  if impl.startsWith "opterr:" ∨ impl.startsWith "optexc:" then "skip"   -- C01's subject
+  else judgeC02 rest impl
+
 def handlers : List Driver.Handler :=
   [{ cmd := "conv", model := model, judge := judgeC02 },
+   { cmd := "convo", model := modelO, judge := judgeO },
    { cmd := "convwf", model := model, judge := judgeC03 }]
 end Driver.ConvD
